@@ -15,6 +15,31 @@ use redis_sim::simulator::{DeterministicRng, HostId};
 use std::fmt::{Debug, Display};
 use vcore::resp::{argv_s, parse_zc, Reply};
 
+/// Points inside a harness run at which a "dirty context" (see dirty.rs) may act: right after the
+/// object under test was constructed, and in the middle of its run. No-ops in pristine runs.
+#[derive(Clone, Copy, Debug, PartialEq, Eq)]
+pub enum Point {
+    Constructed,
+    Mid,
+}
+
+thread_local! {
+    static HOOK: std::cell::RefCell<Option<Box<dyn FnMut(Point)>>> = const { std::cell::RefCell::new(None) };
+}
+
+pub fn set_hook(h: Option<Box<dyn FnMut(Point)>>) -> Option<Box<dyn FnMut(Point)>> {
+    HOOK.with(|c| std::mem::replace(&mut *c.borrow_mut(), h))
+}
+
+fn hook(p: Point) {
+    // take the hook out while it runs (it constructs other simulations, never re-enters)
+    let h = HOOK.with(|c| c.borrow_mut().take());
+    if let Some(mut f) = h {
+        f(p);
+        HOOK.with(|c| *c.borrow_mut() = Some(f));
+    }
+}
+
 pub struct Transcript {
     pub lines: Vec<String>,
     /// operations the run performed (non-trivial rule: >= 100)
@@ -138,7 +163,11 @@ macro_rules! stepwise {
     // and not only in the final dump
     ($t:expr, $h:expr, $n:expr, $snap:expr) => {{
         let every = ($n / 16).max(1);
+        hook(Point::Constructed);
         for i in 0..$n {
+            if i == $n / 2 {
+                hook(Point::Mid);
+            }
             $h.run(1);
             $t.dbg(format!("op[{}]", i), $h.result());
             if i % every == every - 1 {
@@ -315,7 +344,11 @@ fn crdt(kind: &str, seed: u64, preset: &str, n: usize) -> Result<Transcript, Str
     macro_rules! drive {
         ($H:ident) => {{
             let mut h = $H::new(cfg);
+            hook(Point::Constructed);
             for i in 0..n {
+                if i == n / 2 {
+                    hook(Point::Mid);
+                }
                 h.run(1);
                 t.dbg(format!("op[{}]", i), h.result());
             }
@@ -388,7 +421,11 @@ fn dst(seed: u64, preset: &str, n: usize) -> Result<Transcript, String> {
     let crashes_possible = cfg.crash_config.enable_buggify_crashes;
     t.dbg("config", &cfg);
     let mut sim = DSTSimulation::with_config(cfg);
+    hook(Point::Constructed);
     for i in 0..n {
+        if i == n / 2 {
+            hook(Point::Mid);
+        }
         sim.step();
         t.dbg(format!("step[{}].time", i), &sim.current_time());
         let states: Vec<_> = (0..nodes)
@@ -419,7 +456,11 @@ fn redis_dst(seed: u64, preset: &str, n: usize) -> Result<Transcript, String> {
     };
     let mut t = Transcript::new();
     let mut seen = 0usize;
+    hook(Point::Constructed);
     for i in 0..n {
+        if i == n / 2 {
+            hook(Point::Mid);
+        }
         let r = sim.run(1);
         t.lines.push(format!(
             "step[{}] = time {} ops {} crashes {} recoveries {}",
@@ -569,7 +610,11 @@ fn multi(partitioned: bool, seed: u64, preset: &str, n: usize) -> Result<Transcr
     ));
     let mut faults = 0u64;
     let mut ops = 0u64;
+    hook(Point::Constructed);
     for i in 0..n {
+        if i == n / 2 {
+            hook(Point::Mid);
+        }
         let k = wl.gen_range(p.writers.0, p.writers.1 + 1) as usize;
         for j in 0..k {
             let roll = wl.gen_range(0, 100);
@@ -720,7 +765,9 @@ fn partition(seed: u64, preset: &str, n: usize) -> Result<Transcript, String> {
             }
             Ok(())
         };
+        hook(Point::Constructed);
         phase(&mut sim, &mut t, &mut wl, "during", rounds_during, (1, 4), 5, &mut ops, &mut touched)?;
+        hook(Point::Mid);
         phase(&mut sim, &mut t, &mut wl, "quiet", 10, (0, 0), 10, &mut ops, &mut touched)?;
         for (a, b) in &cfg.partitioned_pairs {
             sim.heal_partition(*a, *b);
@@ -763,6 +810,7 @@ fn partition(seed: u64, preset: &str, n: usize) -> Result<Transcript, String> {
     }
     let during: Vec<(usize, &str, &str)> = owned[..during_n].iter().map(|(a, k, v)| (*a, k.as_str(), v.as_str())).collect();
     let after: Vec<(usize, &str, &str)> = owned[during_n..].iter().map(|(a, k, v)| (*a, k.as_str(), v.as_str())).collect();
+    hook(Point::Constructed);
     let r = run_partition_test("c20", nodes, seed, cfg, during, after, 40);
     t.dbg("result.test_name", &r.test_name);
     t.dbg("result.partition_config", &r.partition_config);
@@ -806,7 +854,10 @@ fn streaming(seed: u64, preset: &str, n: usize) -> Result<Transcript, String> {
     let calm = preset == "calm";
     let r = vcore::block_on(async {
         let mut h = StreamingDSTHarness::new(cfg).await;
-        h.run(n).await;
+        hook(Point::Constructed);
+        h.run(n / 2).await;
+        hook(Point::Mid);
+        h.run(n - n / 2).await;
         h.check_invariants().await;
         h.into_result()
     });
@@ -840,7 +891,10 @@ fn compaction(seed: u64, preset: &str, n: usize) -> Result<Transcript, String> {
     let faulty = preset == "new" || preset == "chaos";
     let r = vcore::block_on(async {
         let mut h = CompactionDSTHarness::new(cfg).await;
-        h.run(n).await;
+        hook(Point::Constructed);
+        h.run(n / 2).await;
+        hook(Point::Mid);
+        h.run(n - n / 2).await;
         h.check_invariants().await;
         h.into_result()
     });
@@ -879,7 +933,9 @@ fn wal(seed: u64, preset: &str, n: usize) -> Result<Transcript, String> {
     t.dbg("config", &cfg);
     let crash = cfg.simulate_crash;
     let faulty = preset != "baseline" && preset != "crash_only";
-    let r = WalDSTHarness::new(seed, cfg).run();
+    let mut h = WalDSTHarness::new(seed, cfg);
+    hook(Point::Constructed);
+    let r = h.run();
     t.dbg("result.seed", &r.seed);
     t.dbg("result.total_writes", &r.total_writes);
     t.dbg("result.acknowledged_writes", &r.acknowledged_writes);
@@ -932,7 +988,13 @@ fn connection(seed: u64, preset: &str, n: usize) -> Result<Transcript, String> {
     // pipelines of generated sizes
     let mut i = 0;
     let mut round = 0;
+    let mut mid_done = false;
+    hook(Point::Constructed);
     while i < cmds.len() {
+        if !mid_done && i >= cmds.len() / 2 {
+            mid_done = true;
+            hook(Point::Mid);
+        }
         let size = 1 + wl.gen_range(0, 24) as usize;
         let end = (i + size).min(cmds.len());
         conn.send_pipeline(cmds[i..end].to_vec());
@@ -981,6 +1043,7 @@ fn pipeline(seed: u64, preset: &str, n: usize) -> Result<Transcript, String> {
         _ => return bad_preset("pipeline", preset),
     };
     let mut t = Transcript::new();
+    hook(Point::Constructed);
     let results = sim.run().to_vec();
     t.list("results", &results);
     t.txt("summary", &sim.summary());
@@ -1037,6 +1100,7 @@ fn scenario(seed: u64, preset: &str, n: usize) -> Result<Transcript, String> {
         };
         b = b.at_time(time).client(wl.gen_range(0, 4) as usize, c);
     }
+    hook(Point::Constructed);
     let h = if preset == "eviction" {
         b.run_with_eviction(50)
     } else {
@@ -1087,6 +1151,7 @@ fn event_sim(seed: u64, preset: &str, n: usize) -> Result<Transcript, String> {
         sim.partition_hosts(hosts[0], hosts[3]);
         sim.partition_hosts(hosts[1], hosts[4]);
     }
+    hook(Point::Constructed);
     let mut log: Vec<String> = Vec::new();
     let mut sends = 0u64;
     let mut delivered = 0u64;
@@ -1095,6 +1160,9 @@ fn event_sim(seed: u64, preset: &str, n: usize) -> Result<Transcript, String> {
         use redis_sim::simulator::EventType;
         if log.len() >= n {
             return;
+        }
+        if log.len() == n / 2 {
+            hook(Point::Mid);
         }
         log.push(format!("t={} host={} {:?}", ev.time.0, ev.host_id.0, ev.event_type));
         match &ev.event_type {
@@ -1165,8 +1233,12 @@ fn sim_store(seed: u64, preset: &str, n: usize) -> Result<Transcript, String> {
         Ok(s) => format!("Ok({})", s),
         Err(e) => format!("Err({:?}: {})", e.kind(), e),
     };
+    hook(Point::Constructed);
     vcore::block_on(async {
         for i in 0..n {
+            if i == n / 2 {
+                hook(Point::Mid);
+            }
             let k = format!("obj/{:02}", wl.gen_range(0, 16));
             let k2 = format!("obj/{:02}", wl.gen_range(0, 16));
             let line = match wl.gen_range(0, 12) {
